@@ -239,4 +239,124 @@ instance : (op : Op) → Decidable op.WF
   | .readBigInt _ | .readUnary | .resetCounter | .grow _ | .copy => by unfold WF; exact inferInstance
 
 end Op
+
+/-! ## Go `int` arguments: negative values
+
+`Op` takes natural numbers. `ZOp` is the same vocabulary with the Go `int` parameters as integers; a negative value
+takes the branch the (repaired) Go code takes — an error for `Skip`, every reader, `WriteInt`, `WriteBigUint`;
+nothing written for `WriteUint`; a sign bit and then an error for `WriteBigInt` (also for width 0); the uint64 image for the
+two arguments of `WriteLimUint` / the bound of `ReadLimUint`. `Grow` keeps a natural argument (a negative `Grow` shrinks the
+capacity, possibly below the length or below zero: outside the model). -/
+
+inductive ZOp where
+  | op (o : Op)
+  | writeUint (v : Nat) (n : Int)
+  | writeInt (v : Int) (n : Int)
+  | writeBigUint (v : Int) (n : Int)
+  | writeBigInt (v : Int) (n : Int)
+  | writeLimUint (v n : Int)
+  | skip (n : Int)
+  | readUint (n : Int)
+  | pickUint (n : Int)
+  | readInt (n : Int)
+  | readBytes (n : Int)
+  | readBits (n : Int)
+  | readBigUint (n : Int)
+  | readBigInt (n : Int)
+  | readLimUint (n : Int)
+  deriving Repr, DecidableEq, Inhabited
+
+namespace ZOp
+open BitString
+
+def failNeg : M Out := Op.unitOut (throwErr errNegative)
+
+/-- `On(n)` / `Off(n)` as operations (direct bit set / clear, `n < 0 || n >= cap` is the overflow error); not part of
+`ZOp`: a position at or beyond the written length dirties the buffer tail (see `C06.onOff_refines`) -/
+def onOff (v : Bool) (n : Int) : M Out :=
+  if n < 0 then Op.unitOut (throwErr errOverflow)
+  else Op.unitOut (if v then BitString.on n.toNat else BitString.off n.toNat)
+
+/-- the operation on the byte-level model -/
+def run : ZOp → M Out
+  | .op o => o.run
+  | .writeUint v n => if n < 0 then pure .unit else (Op.writeUint v n.toNat).run
+  | .writeInt v n => if n < 0 then Op.unitOut (throwErr "integer can't be zero size") else (Op.writeInt v n.toNat).run
+  | .writeBigUint v n => if n < 0 then Op.unitOut (throwErr "bit length is too small") else (Op.writeBigUint v n.toNat).run
+  | .writeBigInt v n =>
+    if n ≤ 0 then Op.unitOut (do BitString.writeBit (decide (v < 0)); throwErr "bit length is too small")
+    else (Op.writeBigInt v n.toNat).run
+  | .writeLimUint v n => (Op.writeLimUint (u64OfInt v) (u64OfInt n)).run
+  | .skip n => if n < 0 then failNeg else (Op.skip n.toNat).run
+  | .readUint n => if n < 0 then failNeg else (Op.readUint n.toNat).run
+  | .pickUint n => if n < 0 then failNeg else (Op.pickUint n.toNat).run
+  | .readInt n => if n < 0 then failNeg else (Op.readInt n.toNat).run
+  | .readBytes n => if n < 0 then failNeg else (Op.readBytes n.toNat).run
+  | .readBits n => if n < 0 then failNeg else (Op.readBits n.toNat).run
+  | .readBigUint n => if n < 0 then failNeg else (Op.readBigUint n.toNat).run
+  | .readBigInt n => if n < 0 then failNeg else (Op.readBigInt n.toNat).run
+  | .readLimUint n => (Op.readLimUint (u64OfInt n)).run
+
+/-- direct bit set / clear on the ideal state, for positions below the written length -/
+def specOnOff (v : Bool) (n : Int) : Ideal.SM Out := fun t =>
+  if n < 0 ∨ n.toNat ≥ t.cap then (.err errOverflow, t)
+  else (.ok .unit, { t with bits := t.bits.set n.toNat v })
+
+/-- the operation on the ideal bit list -/
+def spec : ZOp → Ideal.SM Out
+  | .op o => o.spec
+  | .writeUint v n => if n < 0 then fun t => (.ok .unit, t) else (Op.writeUint v n.toNat).spec
+  | .writeInt v n => if n < 0 then Ideal.fail "integer can't be zero size" else (Op.writeInt v n.toNat).spec
+  | .writeBigUint v n => if n < 0 then Ideal.fail "bit length is too small" else (Op.writeBigUint v n.toNat).spec
+  | .writeBigInt v n =>
+    if n ≤ 0 then fun t =>
+      match Ideal.write [decide (v < 0)] t with
+      | (.ok _, t') => (.err "bit length is too small", t')
+      | r => r
+    else (Op.writeBigInt v n.toNat).spec
+  | .writeLimUint v n => (Op.writeLimUint (u64OfInt v) (u64OfInt n)).spec
+  | .skip n => if n < 0 then Ideal.fail errNegative else (Op.skip n.toNat).spec
+  | .readUint n => if n < 0 then Ideal.fail errNegative else (Op.readUint n.toNat).spec
+  | .pickUint n => if n < 0 then Ideal.fail errNegative else (Op.pickUint n.toNat).spec
+  | .readInt n => if n < 0 then Ideal.fail errNegative else (Op.readInt n.toNat).spec
+  | .readBytes n => if n < 0 then Ideal.fail errNegative else (Op.readBytes n.toNat).spec
+  | .readBits n => if n < 0 then Ideal.fail errNegative else (Op.readBits n.toNat).spec
+  | .readBigUint n => if n < 0 then Ideal.fail errNegative else (Op.readBigUint n.toNat).spec
+  | .readBigInt n => if n < 0 then Ideal.fail errNegative else (Op.readBigInt n.toNat).spec
+  | .readLimUint n => (Op.readLimUint (u64OfInt n)).spec
+
+/-- well-formedness: only what the Go types already guarantee (uint64 / int64 value ranges) plus the value-level
+conditions of `Op.WF` for non-negative widths; nothing is assumed about the sign of an `int` argument -/
+def WF : ZOp → Prop
+  | .op o => o.WF
+  | .writeUint v _ => v < 2 ^ 64
+  | .writeInt v n => -(2 : Int) ^ 63 ≤ v ∧ v < (2 : Int) ^ 63 ∧ n ≤ 64
+  | .writeBigUint v _ => 0 ≤ v
+  | .writeBigInt v n => n ≤ 0 ∨ (-(2 : Int) ^ (n.toNat - 1) ≤ v ∧ v < (2 : Int) ^ (n.toNat - 1))
+  | _ => True
+
+instance : (z : ZOp) → Decidable z.WF
+  | .op o => by unfold WF; exact inferInstance
+  | .writeUint _ _ => by unfold WF; exact inferInstance
+  | .writeInt _ _ => by unfold WF; exact inferInstance
+  | .writeBigUint _ _ => by unfold WF; exact inferInstance
+  | .writeBigInt _ _ => by unfold WF; exact inferInstance
+  | .writeLimUint _ _ | .skip _ | .readUint _ | .pickUint _ | .readInt _ | .readBytes _ | .readBits _
+  | .readBigUint _ | .readBigInt _ | .readLimUint _ => by unfold WF; exact inferInstance
+
+def runAll : List ZOp → BitString → List (Outcome Out) × BitString
+  | [], s => ([], s)
+  | z :: rest, s =>
+    match z.run s with
+    | (.panic p, s') => ([.panic p], s')
+    | (r, s') => let (rs, s'') := runAll rest s'; (r :: rs, s'')
+
+def specAll : List ZOp → Ideal → List (Outcome Out) × Ideal
+  | [], t => ([], t)
+  | z :: rest, t =>
+    match z.spec t with
+    | (.panic p, t') => ([.panic p], t')
+    | (r, t') => let (rs, t'') := specAll rest t'; (r :: rs, t'')
+
+end ZOp
 end Tongo
